@@ -474,10 +474,20 @@ def _binop(name, a, b, t):
             r = _py_mod(x, y)
     else:
         raise Escape(f"bit operation {name} in int mode")
-    return CInt(z3.simplify(r), t)
+    res = CInt(z3.simplify(r), t)
+    if name in ("add", "sub", "mul") and WRAP_ARITH_IN_INT_MODE:
+        # C computes in the result type: a value outside it wraps (two's complement; the extensions are built with
+        # -fno-strict-overflow).  Fork on "fits" so that the wrapped value is explored where an overflow is feasible.
+        if not _b(z3.And(res.e >= t.lo, res.e <= t.hi)):
+            WRAPS[0] += 1
+            m = 1 << t.width
+            res = CInt(z3.simplify((res.e + (m >> 1)) % m - (m >> 1)) if t.signed else z3.simplify(res.e % m), t)
+    return res
 
 
 # ------------------------------------------------------------------------------ views
+WRAPS = [0]                      # number of wrapped results on the current path (harnesses reset it)
+WRAP_ARITH_IN_INT_MODE = True    # int mode: every + - * result is checked against its C type (fork on overflow)
 FLOAT_DOMAIN = None      # callable turning an int / CInt into the float stand-in of the running harness (CRat, CFloat)
 DEFER_SAFETY = False      # set by harnesses that run if-converted kernels and add SAFETY to their claim
 NOCHECK = 0               # >0 while the old value of an if-converted assignment target is read
